@@ -512,6 +512,140 @@ fn case_async(rng: &mut Rng, pool: &Pool, rep: &mut Report, case_no: u64) {
     }
 }
 
+// ------------------------------------------------------------------------------------------------
+// Setup of declared data that names no resource (seeded change C13k)
+// ------------------------------------------------------------------------------------------------
+
+/// Replay id of the probe below (outside the range of generated cases).
+pub const NORES_CASE: u64 = 1 << 40;
+
+static NORES_SETUPS: [std::sync::atomic::AtomicU32; 5] = [
+    std::sync::atomic::AtomicU32::new(0),
+    std::sync::atomic::AtomicU32::new(0),
+    std::sync::atomic::AtomicU32::new(0),
+    std::sync::atomic::AtomicU32::new(0),
+    std::sync::atomic::AtomicU32::new(0),
+];
+
+/// The resource `NoRes<I>::setup` creates; it is fetched lazily by hand, hence not declared.
+#[derive(Default)]
+struct NoResMark<const I: usize>(u32);
+
+/// A user-written system data that declares no reads and no writes but whose `setup` has an
+/// effect (it registers a resource that is looked up on demand). The property demands that the
+/// setup of every registered system's / controller's declared data is called, whatever it names.
+struct NoRes<'a, const I: usize>(std::marker::PhantomData<&'a ()>);
+
+impl<'a, const I: usize> shred::SystemData<'a> for NoRes<'a, I> {
+    fn setup(world: &mut World) {
+        NORES_SETUPS[I].fetch_add(1, SeqCst);
+        world.entry::<NoResMark<I>>().or_insert_with(|| NoResMark(7));
+    }
+    fn fetch(_: &'a World) -> Self {
+        NoRes(std::marker::PhantomData)
+    }
+    fn reads() -> Vec<shred::ResourceId> {
+        vec![]
+    }
+    fn writes() -> Vec<shred::ResourceId> {
+        vec![]
+    }
+}
+
+struct NoResSys<const I: usize>;
+impl<'a, const I: usize> shred::System<'a> for NoResSys<I> {
+    type SystemData = (NoRes<'a, I>, ());
+    fn run(&mut self, _: Self::SystemData) {}
+}
+
+struct NoResCtl<const I: usize>;
+impl<'a, 'b, 'c, const I: usize> shred::BatchController<'a, 'b, 'c> for NoResCtl<I> {
+    type BatchSystemData = NoRes<'c, I>;
+    fn run(&mut self, world: &'c World, dispatcher: &mut shred::Dispatcher<'a, 'b>) {
+        let _d: NoRes<'c, I> = world.system_data();
+        dispatcher.dispatch(world);
+    }
+}
+
+struct NoResMulti<const I: usize>;
+impl<'a, const I: usize> shred::MultiDispatchController<'a> for NoResMulti<I> {
+    type SystemData = (NoRes<'a, I>,);
+    fn plan(&mut self, _: Self::SystemData) -> usize {
+        2
+    }
+}
+
+/// Builds  sys(0) ; batch ctl(1) { sys(2) ; multi-batch ctl(3) { sys(4) } }  (optionally with a
+/// thread-local system using data 0 too), sets it up `j` times and compares the number of setup
+/// calls of each declared data with the number of registered users.
+fn case_nores(rep: &mut Report) {
+    use shred::DispatcherBuilder;
+    static LOCK: std::sync::Mutex<()> = std::sync::Mutex::new(());
+    let _g = LOCK.lock().unwrap_or_else(|e| e.into_inner());
+    for variant in 0..6u32 {
+        let with_tl = variant % 2 == 1;
+        let asyncd = variant >= 4;
+        let j = 1 + variant % 3;
+        let inner2 = DispatcherBuilder::new().with(NoResSys::<4>, "s4", &[]);
+        let inner1 = DispatcherBuilder::new()
+            .with(NoResSys::<2>, "s2", &[])
+            .with_batch(shred::MultiDispatcher::new(NoResMulti::<3>), inner2, "b3", &["s2"]);
+        let mut b = DispatcherBuilder::new().with(NoResSys::<0>, "s0", &[]).with_batch(NoResCtl::<1>, inner1, "b1", &[]);
+        if with_tl && !asyncd {
+            b = b.with_thread_local(NoResSys::<0>);
+        }
+        let users: [u32; 5] = [if with_tl && !asyncd { 2 } else { 1 }, 1, 1, 1, 1];
+        let before: Vec<u32> = NORES_SETUPS.iter().map(|a| a.load(SeqCst)).collect();
+        let mut present = [false; 5];
+        let mut b = Some(b);
+        #[cfg(feature = "parallel")]
+        if asyncd {
+            let mut d = b.take().unwrap().build_async(World::empty());
+            for _ in 0..j {
+                d.setup();
+            }
+            d.dispatch();
+            d.wait();
+            let w = d.world();
+            present = [w.has_value::<NoResMark<0>>(), w.has_value::<NoResMark<1>>(), w.has_value::<NoResMark<2>>(), w.has_value::<NoResMark<3>>(), w.has_value::<NoResMark<4>>()];
+        }
+        if let Some(b) = b.take() {
+            let mut w = World::empty();
+            let mut d = b.build();
+            for _ in 0..j {
+                d.setup(&mut w);
+            }
+            d.dispatch(&w);
+            present = [w.has_value::<NoResMark<0>>(), w.has_value::<NoResMark<1>>(), w.has_value::<NoResMark<2>>(), w.has_value::<NoResMark<3>>(), w.has_value::<NoResMark<4>>()];
+        }
+        const WHO: [&str; 5] = ["an ordinary (and a thread-local) system", "a batch controller", "a system inside a batch", "a multi-dispatch controller inside a batch", "a system inside a batch inside a batch"];
+        for i in 0..5 {
+            let got = NORES_SETUPS[i].load(SeqCst) - before[i];
+            let want = users[i] * j;
+            if got != want {
+                rep.violation(
+                    "setup_of_data_naming_no_resource",
+                    &format!(
+                        "{} set up {} time(s): the setup of the declared data of {} (a user system data that names no resource) ran {} time(s), expected {}",
+                        if asyncd { "AsyncDispatcher" } else { "Dispatcher" }, j, WHO[i], got, want
+                    ),
+                    NORES_CASE,
+                    J::Null,
+                );
+            } else if !present[i] {
+                rep.violation(
+                    "setup_did_not_create",
+                    &format!("after setup the resource registered by the setup of the declared data of {} does not exist", WHO[i]),
+                    NORES_CASE,
+                    J::Null,
+                );
+            }
+            rep.metric("setup_calls_of_data_naming_no_resource_checked", got as i64);
+        }
+        rep.nontrivial(mix(0x13_0000 + variant as u64, 0x5e));
+    }
+}
+
 pub fn run(args: &Args) -> i32 {
     let mut rep = Report::new(args);
     let pool = crate::sys::make_pool(2);
@@ -520,7 +654,13 @@ pub fn run(args: &Args) -> i32 {
         Some(c) => vec![c],
         None => (0..n).collect(),
     };
+    if args.case.is_none() || args.case == Some(NORES_CASE) {
+        guard_case(&mut rep, NORES_CASE, |rep| case_nores(rep));
+    }
     for c in range {
+        if c == NORES_CASE {
+            continue;
+        }
         if rep.time_up() {
             break;
         }
